@@ -15,16 +15,14 @@ VARIABLES tid, l, obs, firstBad
 
 tvars == <<tid, l, obs, firstBad>>
 
-Range(s) == {s[i] : i \in DOMAIN s}
-\* lookup payloads arrive as JSON arrays: the clauses speak about sets
-Norm(e) == [e EXCEPT !.eps = Range(@), !.res = Range(@)]
+\* lookup payloads arrive as JSON arrays = sequences, as the monitor expects them
 
 TInit == /\ tid \in 1..Len(Traces) /\ l = 1 /\ obs = ObsInit /\ firstBad = 0
 
 TNext == /\ l <= Len(Traces[tid])
          \* like the model, the monitor stops at the first event at which a clause is false:
          \* `obs.bad' names the clauses false at that event, not later consequences
-         /\ obs' = IF obs.bad # {} THEN obs ELSE ObsEvent(obs, Norm(Traces[tid][l]))
+         /\ obs' = IF obs.bad # {} THEN obs ELSE ObsEvent(obs, Traces[tid][l])
          /\ firstBad' = IF firstBad = 0 /\ obs'.bad # {} THEN l ELSE firstBad
          /\ l' = l + 1
          /\ UNCHANGED tid
